@@ -94,6 +94,7 @@ theorem root_injective_sized (m : α → α → α) (len : α → Nat) (L N : Na
       subst this
       exact symbolic_inj ls ls' t hT hT'
 
+/- VACUITY AUDIT: no longer an obligation of the check. assumes injectivity of H : Bytes -> Bytes on ALL byte strings together with 32-byte outputs: unsatisfiable (pigeonhole, Vacuity.C09.hinj_hlen_unsatisfiable) - the statement is vacuous (Vacuity.C12.root_injective_bytes_hyps_unsat). Replaced by: C12.C12_root_injective_bytes (MmrBytes: explicit pair in hashInputs). -/
 /-- instantiation: `merge a b = H (a ++ b)` over byte strings with an injective `H` of fixed output length -/
 theorem root_injective_bytes (H : List UInt8 → List UInt8) (N L : Nat)
     (hH : ∀ x y, H x = H y → x = y) (hlenH : ∀ x, (H x).length = N)
